@@ -280,3 +280,123 @@ func (c *Ctx) c19RecordedKey() {
 	}
 	r.Floor("R19.5", "deletes on indices that record their key time", n, 2)
 }
+
+// c19RawInsert: R19.6.
+func (c *Ctx) c19RawInsert() {
+	r := c.R
+	onField := func(v ssa.Value, field string) (ssa.Value, bool) {
+		_, f, base, ok := core.FieldOf(v)
+		if !ok || f != field {
+			return nil, false
+		}
+		return base, true
+	}
+	// raw insertions: methods of a wrapper type that ReplaceOrInsert into recv.index and store recv.items[..] without
+	// reading recv.items first
+	raw := map[*ssa.Function]bool{}
+	inlined := map[*ssa.Function]bool{}
+	var fns []*ssa.Function
+	for _, fn := range c.P.ModuleFuncs(true) {
+		if core.PkgOf(fn) == "pkg/order/mempool" && len(fn.Blocks) > 0 {
+			fns = append(fns, fn)
+		}
+	}
+	for _, fn := range fns {
+		if fn.Signature.Recv() == nil || len(fn.Params) == 0 {
+			continue
+		}
+		ins, store, reads := false, false, false
+		for _, call := range core.Calls(fn) {
+			if o := core.CalleeObj(call); o != nil && o.Name() == "ReplaceOrInsert" {
+				if b, ok := onField(core.Receiver(call), "index"); ok && core.Strip(b) == ssa.Value(fn.Params[0]) {
+					ins = true
+				}
+			}
+		}
+		for _, b := range fn.Blocks {
+			for _, in := range b.Instrs {
+				switch x := in.(type) {
+				case *ssa.MapUpdate:
+					if bb, ok := onField(x.Map, "items"); ok && core.Strip(bb) == ssa.Value(fn.Params[0]) {
+						store = true
+					}
+				case *ssa.Lookup:
+					if bb, ok := onField(x.X, "items"); ok && core.Strip(bb) == ssa.Value(fn.Params[0]) {
+						reads = true
+					}
+				}
+			}
+		}
+		if ins && store && !reads {
+			raw[fn] = true
+		} else if ins && store {
+			inlined[fn] = true
+		}
+	}
+	n := 0
+	for _, fn := range fns {
+		for _, call := range core.Calls(fn) {
+			g := core.StaticCallee(call)
+			var recv ssa.Value
+			what := ""
+			switch {
+			case g != nil && raw[g]:
+				recv = core.Receiver(call)
+				what = g.Name()
+			case inlined[fn]:
+				// the insertion written out in a method that also consults items: the same obligation, in place
+				o := core.CalleeObj(call)
+				if o == nil || o.Name() != "ReplaceOrInsert" {
+					continue
+				}
+				b, ok := onField(core.Receiver(call), "index")
+				if !ok || core.Strip(b) != ssa.Value(fn.Params[0]) {
+					continue
+				}
+				recv = fn.Params[0]
+				what = "index.ReplaceOrInsert"
+			default:
+				continue
+			}
+			n++
+			// barrier: a Delete on the index of the same wrapper; cut: the 'absent' edge of a comma-ok lookup in its items
+			sameWrapper := func(base ssa.Value) bool { return recv != nil && sameExpr(base, recv, 0) }
+			absent := condEdges(fn, func(f core.Fact, ifi *ssa.If) (bool, int) {
+				if f.Kind != core.FBool {
+					return false, 0
+				}
+				ex, ok := f.Subject.(*ssa.Extract)
+				if !ok || ex.Index != 1 {
+					return false, 0
+				}
+				lk, ok := ex.Tuple.(*ssa.Lookup)
+				if !ok || !lk.CommaOk {
+					return false, 0
+				}
+				if bb, ok := onField(lk.X, "items"); !ok || !sameWrapper(bb) {
+					return false, 0
+				}
+				return true, 1 - holdsEdge(f)
+			})
+			rs := core.Reach([]core.Point{core.EntryOf(fn)}, func(in ssa.Instruction) bool {
+				cc, ok := in.(ssa.CallInstruction)
+				if !ok {
+					return false
+				}
+				o := core.CalleeObj(cc)
+				if o == nil || o.Name() != "Delete" {
+					return false
+				}
+				bb, ok := onField(core.Receiver(cc), "index")
+				return ok && sameWrapper(bb)
+			}, core.CutOf(absent))
+			key := fmt.Sprintf("%s: %s only after the slot's old entry is gone", shortFn(fn), what)
+			if rs.Has(call) {
+				r.Bad("R19.6", key, c.P.Pos(call.Pos()), "the raw insertion "+what+" (ReplaceOrInsert under a key that contains the time, items[slot] = time) is reached without deleting the entry recorded for the slot and without knowing the slot is new; path (lines): "+rs.Witness(c.P, call)+": when the slot is occupied (a transaction superseded by one with the same account and nonce) the old (account, nonce, old time) entry stays in the index, and the sweep evicts the replacement by the superseded transaction's age")
+			} else {
+				r.OK("R19.6", key, c.P.Pos(call.Pos()), "every path to the call deletes the recorded index entry or found the slot absent")
+			}
+		}
+	}
+	r.Floor("R19.6", "insertions into timed indices with a side table (call sites of raw insertions, or written out)", n, 2)
+}
